@@ -91,6 +91,17 @@ Proof.
   split; reflexivity.
 Qed.
 
+Lemma persistent_never_idle_dropped : forall configured elapsed,
+  idle_drop (timeout_after_head true configured) elapsed = false.
+Proof. reflexivity. Qed.
+
+Lemma nonpersistent_idle_dropped : forall configured elapsed, 0 < configured -> configured <= elapsed ->
+  idle_drop (timeout_after_head false configured) elapsed = true.
+Proof.
+  intros c e H1 H2. unfold idle_drop, timeout_after_head.
+  apply andb_true_iff. split; [apply Z.ltb_lt; exact H1|apply Z.leb_le; exact H2].
+Qed.
+
 (* ---------------------------------------------------------------- Part 2 *)
 
 Section SessionProofs.
@@ -152,7 +163,7 @@ Section SessionProofs.
 
   Lemma inv_step : forall s o, Inv s -> Inv (do_step s o).
   Proof.
-    intros s o HI. destruct o as [r'| | |k|].
+    intros s o HI. destruct o as [r'| | |k| |ms]; [| | | | |exact HI].
     - (* Enq *)
       destruct HI as [[Hw [Hc [Hs [Hr Hm]]]] | [[r [Hw [Hc [Hs [Hr Hm]]]]] | [r [Hw [Hc [Hr Hm]]]]]].
       + left. cbn. repeat split; try assumption. rewrite !map_app, Hm, <- app_assoc. reflexivity.
